@@ -188,9 +188,27 @@ func checkForgeShortLayout(c *Ctx, rule string) {
 		return true, ""
 	}
 	n16, n8 := 0, 0
+	thirdByte := func(at ssa.Instruction, bv ssa.Value) {
+		n8++
+		v := p.bits(bv, p.factsAt(at.Block(), nil), 12)
+		okB := true
+		for j := 0; j < 8; j++ {
+			if v[j] != (bitSrc{bSrc, val, 15 + j}) {
+				okB = false
+			}
+		}
+		nz, _ := edgesOf(at.Block(), nil)
+		c.Check(rule, "third-byte-bits@WriteExtendedForgeShort", at, okB, "the third byte must carry value bits 15..22; derived: "+fmtBits(v, 0, 8))
+		c.Check(rule, "third-byte-iff-high@WriteExtendedForgeShort", at, nz, "the third byte must be written exactly when the value has bits 15..22")
+	}
 	eachInstr(W, func(in ssa.Instruction) {
 		switch x := in.(type) {
 		case *ssa.Call:
+			if n := calleeName(&x.Call); strings.HasSuffix(n, "util.WriteUint8") || strings.HasSuffix(n, "util.WriteByte") || strings.HasSuffix(n, "util.WriteInt8") {
+				// the third byte written through the package's own one-byte writer
+				thirdByte(x, x.Call.Args[len(x.Call.Args)-1])
+				return
+			}
 			if !strings.HasSuffix(calleeName(&x.Call), "util.WriteUint16") {
 				return
 			}
@@ -219,17 +237,7 @@ func checkForgeShortLayout(c *Ctx, rule string) {
 			if _, isIdx := x.Addr.(*ssa.IndexAddr); !isIdx {
 				return
 			}
-			n8++
-			v := p.bits(x.Val, p.factsAt(x.Block(), nil), 12)
-			okB := true
-			for j := 0; j < 8; j++ {
-				if v[j] != (bitSrc{bSrc, val, 15 + j}) {
-					okB = false
-				}
-			}
-			nz, _ := edgesOf(x.Block(), nil)
-			c.Check(rule, "third-byte-bits@WriteExtendedForgeShort", x, okB, "the third byte must carry value bits 15..22; derived: "+fmtBits(v, 0, 8))
-			c.Check(rule, "third-byte-iff-high@WriteExtendedForgeShort", x, nz, "the third byte must be written exactly when the value has bits 15..22")
+			thirdByte(x, x.Val)
 		}
 	})
 	if n16 == 0 || n8 == 0 {
